@@ -142,6 +142,13 @@ def tree_name(tree):
     return None
 
 
+def strip_elidable(t):
+    """C++14 spells a by-value argument / result as an elidable copy construction of the operand"""
+    while isinstance(t, list) and len(t) >= 5 and t[0] == "ctor" and t[4] is True and len(t[3]) == 1:
+        t = t[3][0]
+    return t
+
+
 def strip_casts(t):
     while isinstance(t, list) and t and t[0] == "cast":
         t = t[2]
